@@ -320,6 +320,9 @@ def simulate(rng, tmp, p):
         sim.windows[c] = windows
         refseq = random_reference(rng, L)
         vs = random_variants(rng, refseq, p.get("n_var", 12), kinds, p.get("min_gap", 30), p.get("margin", 40), p.get("allow_shiftable", True), windows=windows)
+        if p.get("pos1_prob") and "snv" in kinds and not windows and rng.random() < p["pos1_prob"]:
+            # an SNV at the very first base of the contig (VCF POS 1, 0-based position 0: phase-set / component id 0)
+            vs.insert(0, Variant(0, refseq[0], rng.choice([b for b in BASES if b != refseq[0]]), "snv", 0))
         if p.get("shared_positions") and c != sim.chroms[0] and not p.get("companions") and not p.get("covering_deletions"):
             # the same sequence and the same variant records on every contig (coordinates recur across contigs); haplotypes differ
             import copy as _copy
